@@ -289,21 +289,19 @@ Qed.
 Definition has_row (tbl : list mech_row) (p : inst) : Prop := exists r, nth_error tbl (i_row p) = Some r.
 
 Lemma F1_pinned_refuted :
-  exists tbl s0 cat,
-    catalogue_ok s0 cat /\ (forall p, In p cat -> has_row tbl p) /\ forallb row_ok tbl = false /\
-    (exists c, steps tbl (init s0 cat) c /\ race c) /\
-    (exists c p, steps tbl (init s0 cat) c /\ In p cat /\ view (c_store c) p <> view s0 p).
+  forallb row_ok [f1_row] = false /\
+  catalogue_ok [0%Z] [f1_proto] /\ has_row [f1_row] f1_proto /\
+  (exists c, steps [f1_row] (init [0%Z] [f1_proto]) c /\ race c) /\
+  (exists c, steps [f1_row] (init [0%Z] [f1_proto]) c /\ view (c_store c) f1_proto <> view [0%Z] f1_proto).
 Proof.
-  exists [f1_row], [0%Z], [f1_proto]. split; [|split; [|split; [|split]]].
+  split; [reflexivity|]. split; [|split; [|split]].
   - intros [|[|k]] i E; simpl in E; try discriminate. inversion E; subst.
     repeat split; auto. intros c [<-|[]]. simpl. lia.
-  - intros p [<-|[]]. exists f1_row. reflexivity.
-  - reflexivity.
+  - exists f1_row. reflexivity.
   - exists f1_c2. split; [apply f1_steps2|].
     exists 0, 1, f1_thread, f1_thread, (AWrite 0 1%Z), [], (AWrite 0 1%Z), [].
     repeat split; auto.
-  - exists f1_c3, f1_proto.
-    split; [apply f1_steps3|split; [left; reflexivity|simpl; discriminate]].
+  - exists f1_c3. split; [apply f1_steps3|simpl; discriminate].
 Qed.
 
 (* ------------------------------------------------------------------ main theorems, for every
